@@ -17,7 +17,8 @@ Values (`Val`) are what lives in the attributes of SDK objects.  An *instance* i
 `Val.inst className fields` with `fields` aligned POSITIONALLY with `ClassDecl.props`.
 `Val`/`Vals` are a plain mutual pair (no nested `List`) so that functions and theorems
 recurse structurally.  Floats are opaque `repr` texts (never compared numerically), bytes
-are `List Nat` with `< 256` demanded by `Conforms`, text is `List Nat` (code points).
+are `List Nat` with `< 256` demanded by `Conforms`, text is `List Nat` (code points; their range
+`textOk` is NOT part of `Conforms`: no (de)serializer depends on it).
 
 Only core Lean; no Mathlib.  Namespace `AasVerif.Sdk`.
 -/
@@ -156,7 +157,7 @@ mutual
     | .prim .bool, .bool _ => true
     | .prim .int, .int _ => true
     | .prim .float, .float _ => true
-    | .prim .str, .str s => textOk s
+    | .prim .str, .str _ => true
     | .prim .bytes, .bytes bs => bytesOk bs
     | .enum e, .enum e' l =>
       e == e' && (match mm.findEnum e with
